@@ -256,6 +256,15 @@ def mc_c02(results):
     return {'states': st, 'transitions': tr, 'traces_validated_against_impl': tr,
             'state_graph_note': 'states = distinct matrix values reached by operation sequences (hash of the value vector, no abstraction), summed over shapes/types; transitions = edges of the history tree (every sequence is replayed from its start matrix on a fresh real object and on the array reference model and compared element by element after every step)'}
 
+def mc_c17(results):
+    st = tr = 0
+    for r in results:
+        for op in r['ops']:
+            if op.get('states', 0):
+                st += op['states']; tr += op['nontrivial']
+    return {'states': st, 'transitions': tr, 'traces_validated_against_impl': tr,
+            'state_graph_note': 'explicit-state part: all sequences of swizzle writes (14 write forms x every duplicate-free name) up to the depth, from tagged start vectors; states = distinct component vectors reached (hash, no abstraction); every sequence is replayed on a real vector and on an array model and compared after each step'}
+
 def mc_c14(results):
     st = tr = 0
     samples = []
@@ -278,6 +287,11 @@ _C20_TABLE_T = [('drivers/c01.cpp', list(range(15)), [], [])] + _C20_TABLE_Q[1:7
                 ('drivers/c04.cpp', None, [], []), ('drivers/c08.cpp', None, [], ['-DC08_HAVE_INFINITEPERSPECTIVE_LH_RH']), ('drivers/c09.cpp', None, [], ['-DC09_RECOMPOSE_DOUBLE']), ('drivers/c10.cpp', None, [], [])]
 
 PROPS = {
+ 'C17': dict(src='drivers/c17.cpp', level='model_checking', mc=mc_c17, parts=19, configs=['default', 'swizzle', 'intr_sse2', 'swizzle_intr_clang'],
+   flags=['-DC17_HAVE_ALIGNED_UVEC2_SWIZZLE', '-DC17_HAVE_ALIGNED_VEC2_3LETTER', '-DC17_HAVE_VEC4_SSSV1'],
+   technique='exhaustive enumeration of the program space: every 2-/3-/4-letter swizzle name over xyzw, rgba, stpq for source lengths 2-4 in the three implementations (member functions, operator/union proxies on packed and aligned types, gtx free functions), all write sequences over duplicate-free names up to a depth against an array model, and every constructor signature of vec1-4 / mat / qua enumerated from the declared overload shapes',
+   text='Reads: the index tuple is derived from the NAME (letter -> index) by macro pasting, independent of GLM; every valid name x tag patterns, compared bit for bit. Writes (explicit-state): all sequences of 14 write forms (=vec, =scalar, += -= *= /=, cross-swizzle and self-aliasing forms) over duplicate-free names, array reference model after every step, exactly the named components change. Constructors: 1236 (2598 with aligned types) vector signatures per destination type x value patterns that make static_cast observable, all 49 (U,T) cross-type pairs, cross-qualifier, matrix diagonal/scalars/columns/cross-type, quaternion forms; four build configurations (default, GLM_FORCE_SWIZZLE, intrinsics, operator swizzles).',
+   rule='names: 28/117/336 per source length and letter set; write sequences depth <=3 (L2), <=2 (L3, L4) quick, L3 depth 3 thorough; constructor signatures enumerated by templates from the overload shapes; inadmissible (pattern, U, T) conversions are counted trivial.'),
  'C03': dict(run=run_c03, src='drivers/c03.cpp', level='exploration', part_list=[0, 1, 2, 3, 4, 5, 6, 7, 8, 9, 10, 11, 13],   # part 12 = raw glm_* kernels that no vec/mat/quat operation reaches: outside the statement
    flags=['-DC03_TRY_ALL'], cap=20000, baseline='pure',
    configs_quick=['intr_sse2', 'intr_avx2_fma'],
